@@ -195,10 +195,7 @@ func vh_C17_L6_wfq_fairness_bound() {
 	w1, w2 := uint16(1+vPick(3)), uint16(1+vPick(3))
 	q := newWeightedFairQueueingPendingQueuePolicy(map[uint16]uint16{1: w1, 2: w2})
 	const maxLen = 2
-	n := 3
-	if vtier() > 0 {
-		n = 4
-	}
+	n := 3 // (4 with the two-stage history: 55 000 concrete paths, over 15 minutes; not registered)
 	// an earlier busy period: one of the streams has sent 0..3 chunks alone and the scheduler
 	// has drained completely since (what a stream sent before an idle period gives it neither
 	// credit nor debt afterwards)
